@@ -152,9 +152,10 @@ func indent(s string) string {
 
 // G is the drawing context shared by all item generators.
 type G struct {
-	T    *rapid.T
-	ntag int
-	nvar int
+	T     *rapid.T
+	Flags map[string]bool // per-program generator state
+	ntag  int
+	nvar  int
 }
 
 func (g *G) Intn(n int, label string) int {
